@@ -383,7 +383,10 @@ class StreamEncTap:
         if v[e.pipe_ce]:
             self.cur_out = self.stage1
             d, k = v[e.sink.d], v[e.sink.k]
-            self.stage1 = ([(((k >> i) & 1) << 8) | ((d >> (8 * i)) & 255) for i in range(n)], v[e.sink.valid])
+            # what a bubble is filled with is the wrapper's business: its symbols are 'unknown' (disparity and
+            # run length are still judged on the emitted word, comma windows touching it are not)
+            self.stage1 = ([(((k >> i) & 1) << 8) | ((d >> (8 * i)) & 255) if v[e.sink.valid] else None for i in range(n)],
+                           v[e.sink.valid])
             if not v[e.sink.valid]:
                 self.bubbles += 1
             self.prev_adv = True
